@@ -6,7 +6,7 @@
    transcribed one-for-one (same case order, same loop, uint64 / int wrap written explicitly).
    Definitions only. *)
 From Coq Require Import NArith ZArith List Bool.
-From Flocq Require Import IEEE754.BinarySingleNaN IEEE754.Binary IEEE754.Bits.
+From Verif Require Base.GoNum.
 Import ListNotations.
 Open Scope N_scope.
 
@@ -107,17 +107,18 @@ Definition limit_cert_size_exec (size : params -> N) (max : N) (c : params) : lr
    so whether uint() truncates to n or n-1 is decided by the rounding of every intermediate sum.
    Observed on the real code: 7 bridges + 1 claim (pp) gives 3583, not 3584. A model with exact rationals
    would therefore disagree with the code exactly at the limits the property speaks about; the model uses
-   Flocq's IEEE-754 binary64 (round to nearest even, Bplus/Bdiv of Flocq.IEEE754.Binary), with the same
+   Flocq's IEEE-754 binary64 (round to nearest even, Bplus/Bdiv of Flocq.IEEE754.BinarySingleNaN), with the same
    order of additions as the Go code. The constants are the nearest doubles of the exact rationals
    (Go evaluates the untyped constant expression 0.09 * 1024 exactly, then rounds once): obtained here as the
    correctly rounded quotient of two exactly representable integers.
    The harness probes limits size-1, size, size+1 of every prefix, and layouts whose exact size is an integer. *)
 
-Definition f64 := binary64.
-Definition f64_of_N (n : N) : f64 :=                              (* float64(n), exact for n < 2^53 *)
-  Binary.binary_normalize 53 1024 (eq_refl Lt) (eq_refl Lt) mode_NE (Z.of_N n) 0 false.
-Definition fadd : f64 -> f64 -> f64 := b64_plus mode_NE.
-Definition f64_ratio (num den : N) : f64 := b64_div mode_NE (f64_of_N num) (f64_of_N den).
+(* the float64 operations are those of Base/GoNum.v (Flocq BinarySingleNaN binary64), the same the definitions GENERATED from the
+   Go source use (Gen/GenBuildParams.v; Proofs/GenAgreeBuildParams.v proves them equal to the definitions below) *)
+Definition f64 := GoNum.f64.
+Definition f64_of_N (n : N) : f64 := GoNum.f64_of_N n.            (* float64(n), exact for n < 2^53 *)
+Definition fadd : f64 -> f64 -> f64 := GoNum.f64_add.
+Definition f64_ratio (num den : N) : f64 := GoNum.f64_ratio num den.
 
 Definition kb : N := 1024.                                        (* aggkitcommon.KB = 1 << 10 *)
 Definition claim_size_factor : N := 200.                          (* claimSizeFactor *)
@@ -126,7 +127,7 @@ Definition est_imported_exit : f64 := f64_ratio (28 * kb) 10.     (* EstimatedIm
 Definition est_signature : f64 := f64_ratio (7 * kb) 100.         (* EstimatedAggchainSignatureSize  = 0.07 * KB *)
 Definition est_proof : f64 := f64_of_N (10 * kb).                 (* EstimatedAggchainProofSize      = 10 * KB *)
 
-Definition f64_trunc (x : f64) : N := Z.to_N (Binary.Btrunc 53 1024 x).   (* uint(x), x >= 0 and in range *)
+Definition f64_trunc (x : f64) : N := GoNum.f64_to_u64 x.   (* uint(x), x >= 0 and in range *)
 
 Definition sum_events (k : f64) (l : list event) : f64 :=
   fold_left (fun acc e => fadd (fadd acc k) (f64_of_N (ev_meta e))) l (f64_of_N 0).
